@@ -849,11 +849,18 @@ func c17Run(ctx *Ctx, t *tape.Tape) *report.Violation {
 		w, h := 8+t.Intn(57), 8+t.Intn(57)
 		// strips: one pixel high or wide (a rasteriser then samples a single
 		// row or column of every paint)
-		switch t.Pick(6, 1, 1) {
+		switch t.Pick(6, 1, 1, 1) {
 		case 1:
 			h = 1
 		case 2:
 			w = 1
+		case 3:
+			// a banner: one side beyond a few hundred pixels (back ends switch
+			// strategy with the size of what they are asked to cover)
+			w, h = 300+t.Intn(500), 2+t.Intn(12)
+			if t.Bool() {
+				w, h = h, w
+			}
 		}
 		op := draw.Over
 		if t.Bool() {
